@@ -234,6 +234,32 @@ class Model:
         self.macros = [it for _, it in self.items if it["kind"] == "macro"]
         self.fns = [it for _, it in self.items if it["kind"] == "fn"]
 
+    # ------------------------------------------------------------------ the filter predicate
+    PRED_VOCAB = {"if", "else", "return", "let", "match", "Err", "Ok", "Self", "Error", "UnknownPKCredentialParam", "UnknownType", "UnknownAlg",
+                  "PublicKeyCredentialParameters", "KnownPublicKeyCredentialParameters", "value", "alg", "key_type", "KNOWN_ALGS",
+                  "contains", "iter", "any", "as_str", "true", "false", "matches", "ref", "mut", "ES256", "ED_DSA"}
+
+    def predicate_verdict(self, body, depth=0):
+        """'' when a body the translator cannot read exactly is still made only of plain comparisons of the type string
+        with the literal and of the algorithm with the known list (rewritten, destructured, through a constant or a small
+        helper) — it then falls to the correspondence tier like any refactored body; 'recognising predicate: ' when it
+        brings in anything else (a hash, a case-folding compare, a normalisation, another literal), which sampling
+        cannot vouch for"""
+        txt = re.sub(r'"(?:[^"\\]|\\.)*"', ' S ', body)
+        if len(re.findall(r'"(?:[^"\\]|\\.)*"', body)) > 1 or re.search(r"(?<![A-Za-z_])[0-9]", txt.replace(" S ", " ")):
+            return "recognising predicate: "
+        bound = set(re.findall(r"\|\s*(?:&\s*)?([a-z_][a-z0-9_]*)\s*\|", txt)) | set(re.findall(r"\blet\s+(?:mut\s+)?([a-z_][a-z0-9_]*)\b", txt))
+        for ident in set(re.findall(r"[A-Za-z_][A-Za-z0-9_]*", txt)) - self.PRED_VOCAB - bound - {"S"}:
+            cands = self.by_name.get(ident, [])
+            if cands and all(c["kind"] == "const" and re.fullmatch(r'\s*"(?:[^"\\]|\\.)*"\s*', c.get("expr") or "") for c in cands):
+                continue                                    # a string constant standing for the literal
+            helpers = [f for f in self.fns if f["name"] == ident] + \
+                      [f for imp in self.impls for f in imp.get("items", []) if f.get("kind") == "fn" and f.get("name") == ident]
+            if helpers and depth < 2 and all(self.predicate_verdict(f.get("body") or "", depth + 1) == "" for f in helpers):
+                continue                                    # a small helper made of the same vocabulary
+            return "recognising predicate: "
+        return ""
+
     # ------------------------------------------------------------------ configuration space
     CFG_KNOWN = {'feature="get-info-full"', 'feature="large-blobs"', 'feature="third-party-payment"', 'feature="arbitrary"', "test"}
 
@@ -889,7 +915,7 @@ class Model:
                      for x in inner[1:-1].split(",") if x.strip()]
             # literals in TryFrom<PublicKeyCredentialParameters> and From<Known..>
             de_lit = ser_lit = None
-            for imp in self.impls:
+            for imp in sorted(self.impls, key=lambda i_: not (i_["trait"] or "").replace(" ", "").startswith("TryFrom<PublicKeyCredentialParameters>")):
                 tr = (imp["trait"] or "").replace(" ", "")
                 st = imp["self_ty"].replace(" ", "")
                 if tr == "TryFrom<PublicKeyCredentialParameters>" and st == "KnownPublicKeyCredentialParameters":
@@ -899,8 +925,26 @@ class Model:
                             body = f["body"]
                     m = re.search(r'key_type != ("(?:[^"\\]|\\.)*")', body)
                     if not m or "KNOWN_ALGS . contains" not in body:
-                        raise Untranslatable(st, "try_from body not recognised")
+                        raise Untranslatable(st, self.predicate_verdict(body) + "try_from body not recognised")
                     de_lit = json.loads(m.group(1))
+                    # the predicate *is* the table of what is kept: the whole body, not a fragment of it, must be the
+                    # two plain comparisons (a tag / hash compare, a normalisation in front, a third branch are not)
+                    sig = ""
+                    for f in imp["items"]:
+                        if f["kind"] == "fn" and f["name"] == "try_from":
+                            sig = f.get("sig", "")
+                    pm = re.search(r"\(\s*(?:mut\s+)?([A-Za-z_][A-Za-z0-9_]*)\s*:", sig)
+                    pn = pm.group(1) if pm else "value"
+                    nb = re.sub(r"\b%s\b" % re.escape(pn), "value", body).replace(" ", "")
+                    nb = nb.replace("Self::Error::", "UnknownPKCredentialParam::")
+                    L = m.group(1).replace(" ", "")
+                    forms = [
+                        '{ifvalue.key_type!=%s{Err(UnknownPKCredentialParam::UnknownType)}elseifKNOWN_ALGS.contains(&value.alg){Ok(Self{alg:value.alg})}else{Err(UnknownPKCredentialParam::UnknownAlg)}}' % L,
+                        '{ifvalue.key_type!=%s{returnErr(UnknownPKCredentialParam::UnknownType);}ifKNOWN_ALGS.contains(&value.alg){Ok(Self{alg:value.alg})}else{Err(UnknownPKCredentialParam::UnknownAlg)}}' % L,
+                        '{ifvalue.key_type!=%s{returnErr(UnknownPKCredentialParam::UnknownType);}if!KNOWN_ALGS.contains(&value.alg){returnErr(UnknownPKCredentialParam::UnknownAlg);}Ok(Self{alg:value.alg})}' % L,
+                    ]
+                    if nb not in forms:
+                        raise Untranslatable(st, self.predicate_verdict(body) + "try_from is more than `key_type != literal` and `KNOWN_ALGS.contains(&alg)`")
                 if tr == "From<KnownPublicKeyCredentialParameters>" and st == "PublicKeyCredentialParameters":
                     for f in imp["items"]:
                         if f["kind"] == "fn" and f["name"] == "from":
